@@ -157,4 +157,20 @@ PROPS = {
         "assumptions": COMMON_ASSUME + ["time-outs are compared on the simulated clock (exact); timers may fire late, never early",
                                         "the scripted peer talks to the simulated kernel directly (raw calls), not through the library"],
     },
+    "C19": {
+        "harness": "eintr",
+        "variants": ["A.c11.posix"],
+        "quick_s": 10, "thorough_s": 240,
+        "level": "fault_enumeration",
+        "rule": ("one evaluation = one blocking scenario (p_uthread_sleep with 8 durations and 4 stale errno values; semaphore acquire on a 0-counter released later, create/open; "
+                 "shm create + lock held by another task; blocking TCP accept/connect/receive/send with late peers and full buffers; UDP receive_from / io_condition_wait with a "
+                 "late datagram) under one injection plan: EINTR at the k-th invocation (k = 1..6, thorough 1..12) of one interruptible system call, a pair of such injections, or a "
+                 "signal storm with probability 0.05-0.9 per opportunity; outcome compared with the undisturbed one on the simulated clock; distinct = distinct event-log hash; "
+                 "non-trivial = at least one fired injection or more than one context switch"),
+        "probes": ["eintr.planned", "eintr.some_fired", "sleep.interrupted", "sleep.interrupted_twice", "sleep.long_sleep_cost_nothing", "eintr.sem_wait", "eintr.poll", "eintr.accept",
+                   "eintr.recv", "eintr.send", "eintr.recvfrom", "eintr.sendto", "eintr.connect_before_start", "eintr.connect_after_start"],
+        "components": {"real": ["puthread.c (sleep)", "psemaphore-posix.c", "pshm-posix.c", "psocket.c", "perror.c", "pmem.c"], "stub": STUB_KERNEL + STUB_NET + STUB_PTHREAD},
+        "assumptions": COMMON_ASSUME + ["a handled signal is modelled by its only observable effect on a blocked call: EINTR (or, for clock_nanosleep, the returned error number and the remaining time)",
+                                        "after EINTR on connect only the sequences Linux produces for a non-blocking connect are offered (EALREADY, then 0)"],
+    },
 }
